@@ -311,6 +311,7 @@ def rule_pawn_table(ctx):
     eps = [(bi, t) for bi, t in b.calls() if callee_is(t, "board::ply::builder::Builder::en_passant")]
     ok = len(eps) == 2
     sides = set()
+    n_file_tests = 0
     for bi, t in eps:
         chain = None
         for bj, tj in b.calls():
@@ -325,16 +326,17 @@ def rule_pawn_table(ctx):
         flagok = const_int(t["args"][1]) == 1
         cons = C.constraints_for(ix, b, sym, bi)
         rank_ok = any(c[3][0] == "bin" and c[3][1] == "Eq" and "square.rank" in expr_str(c[3][2]) and c[3][3][0] == "field" and c[3][3][-1] == "2" and True in c[1] for c in cons)
-        file_ok = any(c[3][0] == "call" and c[3][1].endswith("Option::is_some_and") and "en_passant_file" in c[0] and True in c[1] for c in cons)
         side = "East" if "Direction::East" in txt else "West" if "Direction::West" in txt else None
         sides.add(side)
+        file_ok = any(ep_file_test(ix, c, side) for c in cons)
+        n_file_tests += 1 if file_ok else 0
         ok = ok and capok and flagok and rank_ok and file_ok
         # "iff": any further condition must be one we can decide; the only accepted one is "an enemy pawn stands beside this pawn"
         for c in cons:
             e = c[3]
             if e[0] == "bin" and e[1] == "Eq" and "square.rank" in expr_str(e[2]):
                 continue
-            if e[0] == "call" and e[1].endswith("Option::is_some_and") and "en_passant_file" in c[0]:
+            if ep_file_test(ix, c, side):
                 continue
             verdict = victim_guard(ix, b, sym, c, side)
             ctx.check(verdict is True, c04.c15_dedup(ctx.__dict__.setdefault("_seen01", {}), "pawn:en-passant:%s:extra-condition" % side),
@@ -343,14 +345,8 @@ def rule_pawn_table(ctx):
                                verdict if isinstance(verdict, str) else "not a condition this rule can decide; legal en-passant captures may be dropped"))
     ctx.check(ok and sides == {"East", "West"}, "pawn:en-passant", "two en-passant captures (east and west), each en_passant(true), capturing Pawn(color.opposite()), on the e.p. rank when en_passant_file equals the destination file", b.where(0),
               bad_what="the en-passant moves are not two guarded captures of the opposite pawn with the en_passant flag (sides %s)" % sorted(map(str, sides)))
-    # the closure of is_some_and compares the file with dest.file
-    fileclo = 0
-    for cb in ix.closures_of(PAWN_MS):
-        r = mir.Sym(cb, ix).local(0)
-        if r[0] == "bin" and r[1] == "Eq" and "file" in expr_str(r):
-            fileclo += 1
-            ctx.functions.add(cb.key)
-    ctx.check(fileclo == 2, "pawn:en-passant-file-test", "both e.p. guards compare en_passant_file with the destination's file", b.where(0), bad_what="%d closures compare the e.p. file" % fileclo)
+    ctx.check(n_file_tests == 2, "pawn:en-passant-file-test", "both e.p. guards compare en_passant_file with the file of their own destination square", b.where(0),
+              bad_what="%d of the en-passant guards compare the e.p. file with their destination's file" % n_file_tests)
     # promotions
     eb = ctx.body("board::piece::pawn::Pawn::explode_promotion")
     esym = ctx.sym(eb)
@@ -368,6 +364,26 @@ def rule_pawn_table(ctx):
     # every pawn move goes through explode_promotion with this colour's back rank
     used = [t for cb in ix.closures_of(PAWN_MS) + [b] for _b, t in cb.calls() if callee_is(t, "board::piece::pawn::Pawn::explode_promotion")]
     ctx.check(len(used) == 1, "pawn:all-moves-exploded", "the final flat_map sends every generated pawn move through explode_promotion", b.where(0), bad_what="explode_promotion is applied at %d places" % len(used))
+
+
+def ep_file_test(ix, c, side):
+    """Is the path constraint `c` the test `board.en_passant_file == Some(<this side's destination>.file)`, spelt either as
+    `.is_some_and(|file| file == dest.file)` or as `== Some(dest.file)`?"""
+    e = c[3]
+    if not (e[0] == "call" and "en_passant_file" in c[0] and set(c[1]) == {True} and side):
+        return False
+    if e[1].endswith("Option::is_some_and") and len(e[2]) == 2 and e[2][1][0] == "closure" and e[2][1][1] in ix.bodies:
+        cb = ix.bodies[e[2][1][1]]
+        r = mir.Sym(cb, ix).local(0)
+        caps = " ".join(expr_str(x) for x in e[2][1][2])
+        return r[0] == "bin" and r[1] == "Eq" and "file" in expr_str(r) and ("Direction::%s" % side) in caps
+    if e[1].endswith("PartialEq>::eq") and len(e[2]) == 2:
+        a, b2 = mir.strip_refs(e[2][0]), mir.strip_refs(e[2][1])
+        for x, y in ((a, b2), (b2, a)):
+            if x[0] == "field" and x[-1] == "en_passant_file" and y[0] == "agg" and y[2] == "Some" and y[3]:
+                inner = y[3][0]
+                return inner[0] == "field" and inner[-1] == "file" and ("Direction::%s" % side) in expr_str(inner)
+    return False
 
 
 def victim_guard(ix, b, sym, c, side):
